@@ -574,7 +574,7 @@ def run_parser(ctx, fam):
         # becomes a history for the real parser
         mod, cq, ct, limit = fam.get('design') or fam['mix']['design']
         log('[%s] design model check + transition cover of %s' % (ctx.prop, mod))
-        hist = vlib.tlc_cover(ctx, mod, ct if t else cq, limit=None if t else limit, seed=ctx.seed, timeout=2400)
+        hist = vlib.tlc_cover(ctx, mod, ct if t else cq, limit=(8 * limit if t else limit), seed=ctx.seed, timeout=2400)
         for i, ops in enumerate(hist):
             begin = dict(ops[0])
             kind = begin.pop('kind')
